@@ -95,8 +95,9 @@ def _interval0(e, depth=0, env=None):
             return (min(c), max(c))
         if op == "Shl" and b[0] == b[1] and a[0] >= 0:
             return (a[0] << b[0], a[1] << b[0])
-        if op == "Shl" and a[0] >= 0 and 0 <= b[0] and b[1] < 128:
-            return (a[0] << b[0], a[1] << b[1])
+        if op == "Shl" and a[0] >= 0 and 0 <= b[1] < 128:
+            # a negative or too large shift amount is an overflow site of its own (audited there)
+            return (a[0] << max(0, b[0]), a[1] << b[1])
         if op in ("Lt", "Le", "Eq", "Ne"):
             return (0, 1)
         return None
@@ -296,6 +297,14 @@ class Auditor:
             return "%s(%s%s) on %s" % (t["op"], a, ", " + b if b else "", t["ty"].rsplit("::", 1)[-1])
         return self.describe(t)
 
+    def _op_unsigned(self, opnd):
+        if opnd["k"] in ("copy", "move"):
+            ty = opnd["pl"].get("ty") or self.f.locals[opnd["pl"]["l"]]["ty"]
+            return ty in ("u8", "u16", "u32", "u64", "u128", "usize")
+        if opnd["k"] == "const":
+            return isinstance(opnd.get("v", opnd.get("int", 0)), int) and opnd.get("v", opnd.get("int", 0)) >= 0
+        return False
+
     def discharge(self, bi, t, wide_ok=False):
         """returns (ok, reason).  wide_ok: 64-bit Add/Mul on lengths/offsets are discharged by the
         physical bound (no object has 2^63 bytes)."""
@@ -312,11 +321,21 @@ class Auditor:
             unsigned = ty.startswith("u")
             a = exk.operand(t["a"])
             b = exk.operand(t["b"]) if "b" in t else None
+            def clamp(iv, opnd):
+                # an unsigned operand is >= 0: a subtraction inside it that could wrap is a site of its own
+                if iv and self._op_unsigned(opnd) and iv[0] < 0 <= iv[1]:
+                    return (0, iv[1])
+                return iv
             if op in ("Shl", "Shr"):
-                ib = interval(b, env=env)
+                ib = clamp(interval(b, env=env), t["b"])
                 bits = INT_BITS.get(ty, 64)
                 if ib and 0 <= ib[0] and ib[1] < bits:
                     return True, "shift amount in %s" % (ib,)
+                if self._op_unsigned(t["b"]):
+                    lb = dict(linear(ex.operand(t["b"])))
+                    lb["1"] = lb.get("1", 0) - (bits - 1)
+                    if implies_le0(self.known(bi), lb, unsigned=True):
+                        return True, "dominating guard implies shift amount < %d" % bits
                 return False, "shift amount not bounded below the bit width"
             if op == "Neg":
                 ia = interval(a, env=env)
@@ -328,7 +347,7 @@ class Auditor:
                 if ib and (ib[0] > 0 or (ib[1] < 0 and ib[0] != -1 and ib[1] != -1)):
                     return True, "divisor interval %s (MIN / -1 impossible)" % (ib,)
                 return False, "signed division may overflow"
-            ia, ib = interval(a, env=env), interval(b, env=env)
+            ia, ib = clamp(interval(a, env=env), t["a"]), clamp(interval(b, env=env), t["b"])
             if ia and ib and tr:
                 res = _interval0(("bin", op, ("const", 0), ("const", 0)), 0, None)
                 lohi = None
